@@ -115,6 +115,12 @@ def _run_structural(ctx):
         guard = any(isinstance(n, ast.If) and isinstance(n.test, ast.Compare) and isinstance(n.test.ops[0], ast.In) and dotted(n.test.left) == sem.target
                     and any(isinstance(s, ast.Return) for s in n.body) for n in visit.node.body[:2])
         memo = "unbounded" if guard else None
+    if memo is None and not any("cache" in (d or "") for d in visit.decorator_names()):
+        # no cache decorator anywhere: an explicit visited set in another shape; the evaluated command on a project with a shared dependency decides
+        from .evalhelpers import cached_witness, touch_command_witness
+        tw_ = cached_witness(ctx, "touch_command_witness", touch_command_witness)
+        if tw_[2] is None and not tw_[1]:
+            memo = "unbounded"
     r1.check(memo == "unbounded", vcon + "::memo", "each target is visited once (unbounded memo)",
              ("the visitor's memo is bounded (lru_cache default maxsize=128): in a large workflow a shared dependency is evicted, visited again and re-touched "
               "after its first dependents, which makes them stale") if memo == "bounded" else
